@@ -41,7 +41,7 @@ class Gen:
         if k in ('pair', 'rmclient', 'read', 'suspend', 'resume'):
             return '%s %d' % (k, self.ent('c')[1])
         if k == 'write':
-            return 'write %d %d' % (self.ent('c')[1], r.choice([1, 2, 3, 5, 8, 100]))
+            return 'write %d %d' % (self.ent('c')[1], r.choice([0, 1, 2, 3, 5, 8, 100]))
         if k in ('listen', 'rmlistener'):
             return '%s %d' % (k, r.choice(self.l or [0]))
         if k in ('connect', 'rmestab'):
@@ -76,7 +76,27 @@ class Gen:
         return '%d:%s' % (dt, ','.join(parts)) if parts else '%d' % dt
 
 
+def case_same_tick(rng):
+    """5..9 timers created in the same tick with the same interval (one run of equal keys in the MultiMap, tall enough for rotations),
+    removal of early/middle/late ones at top level and from the first activation, then a few rounds"""
+    n = rng.randrange(5, 10)
+    iv = rng.choice(IVS)
+    ops = ['timer %d %d' % (i, iv) for i in range(n)]
+    if rng.random() < 0.5:
+        ops.insert(rng.randrange(0, n), 'timer %d %d' % (n, iv + rng.choice([-1, 1])) if iv > 1 else 'timer %d 2' % n)
+    vict = rng.sample(range(n), rng.randrange(1, 4))
+    if rng.random() < 0.6:
+        ops += ['rmtimer %d' % v for v in vict]
+    else:
+        first = rng.randrange(n)
+        ops.append('on t%d act 0 0' % first + ''.join(' / rmtimer %d' % v for v in vict))
+    ops.append('run ' + ' '.join(str(rng.choice([iv, iv, 0, 2 * iv])) for _ in range(rng.randrange(2, 5))))
+    return ops
+
+
 def case_timers(rng, big=False):
+    if rng.random() < 0.25:
+        return case_same_tick(rng)
     g = Gen(rng, nt=7 if big else 5, nc=1, nl=0, ne=0)
     n = len(g.t)
     iv = rng.choice(IVS)
@@ -112,10 +132,17 @@ def case_timers(rng, big=False):
     return g.ops
 
 
+def opts_line(rng):
+    # TCP_NODELAY cannot be set on the socket pairs the simulated accept hands out, so nodelay stays off here (stream mt sets it)
+    return 'opts %d 0 %d %d %d' % (rng.randrange(2), rng.choice([0, 4096, 65536]), rng.choice([0, 4096, 65536]), rng.randrange(2))
+
+
 def case_pending(rng, big=False):
     """many sockets ready in one poll round; callbacks remove / re-register objects whose event is still buffered"""
     nc = rng.randrange(3, 12 if big else 7)
     g = Gen(rng, nt=2, nc=nc, nl=2, ne=2)
+    if rng.random() < 0.3:
+        g.ops.append(opts_line(rng))
     for i in range(nc):
         g.ops.append('pair %d' % i)
     for i in g.l:
@@ -205,9 +232,9 @@ def case_io(rng, big=False):
                                                     ['rmclient %d' % rng.randrange(nc)]]))
         elif x < 0.7:
             g.ops.append('sendq ' + ' '.join(rng.choice(['w', 'e', '0', '1', '2', '100']) for _ in range(rng.randrange(1, 3))))
-            g.ops.append('write %d %d' % (i, rng.choice([1, 3, 5])))
+            g.ops.append('write %d %d' % (i, rng.choice([0, 1, 3, 5])))
         elif x < 0.8:
-            g.on('c%d' % i, 'write', rng.choice([['write %d 4' % i], ['rmclient %d' % i], ['suspend %d' % i], []]))
+            g.on('c%d' % i, 'write', rng.choice([['write %d 4' % i], ['write %d 0' % i], ['rmclient %d' % i], ['suspend %d' % i], []]))
         elif x < 0.9:
             g.ops.append(rng.choice(['suspend %d', 'resume %d', 'read %d']) % i)
             if rng.random() < 0.3:
@@ -247,6 +274,8 @@ def case_interrupt(rng, big=False):
 
 def case_random(rng, big=False):
     g = Gen(rng, nt=3, nc=4, nl=2, ne=2)
+    if rng.random() < 0.3:
+        g.ops.append(opts_line(rng))
     made = {'t': [], 'c': [], 'l': [], 'e': []}       # identities created at top level (approximation of "live")
 
     def act(inside=False):
@@ -332,7 +361,13 @@ def case_announce(rng, big=False):
             a.insert(rng.randrange(0, len(a) + 1), 'rmclient %d' % n)
             if rng.random() < 0.3:
                 a.append(rng.choice(['rmclient %d' % n, 'read %d' % n, 'write %d 1' % n]))
+            if rng.random() < 0.4:          # a client created right after the removal (it may get the pool slot of the removed one)
+                k = 10 + len(spare)
+                spare.append(k)
+                a.append('pair %d' % k)
         return a
+
+    spare = []
 
     for _ in range(rng.randrange(1, 5)):
         if rng.random() < 0.6:
@@ -349,7 +384,7 @@ def case_announce(rng, big=False):
     ents = ['l%d' % i for i in g.l] + ['e%d' % i for i in g.e]
     for _ in range(rng.randrange(1, 3)):
         items = [g.item(rng.sample(ents, rng.randrange(1, len(ents) + 1)), dt=0) for _ in range(rng.randrange(1, 3))]
-        pool = ['c%d' % n for n in news] + ['c%d' % i for i in g.c]
+        pool = ['c%d' % n for n in news] + ['c%d' % i for i in g.c] + ['c%d' % k for k in spare]
         items += [g.item(rng.sample(pool, rng.randrange(1, len(pool) + 1))) for _ in range(rng.randrange(1, 4))]
         g.ops.append('run ' + ' '.join(items))
     return g.ops
@@ -386,6 +421,40 @@ def case_late(rng, big=False):
     items += [g.item([], dt=rng.choice([0, 1, 2, 5, 30, 60])) for _ in range(rng.randrange(1, 5))]
     g.ops.append('run ' + ' '.join(items))
     return g.ops
+
+
+def case_mt(rng, big=False):
+    """rounds on the real kernel (real eventfd/epoll, real time) with a loop thread and one or two interrupting threads: interrupt()
+    before / during / racing with run(), stalls around the write to the event descriptor, a host-name lookup (getaddrinfo interposed)
+    completing together with an interrupt, removal of an establisher whose lookup is pending, clear()"""
+    rounds = []
+    for _ in range(rng.randrange(8, 30 if big else 18)):
+        x = rng.random()
+        us = rng.choice([0, 0, 1, 5, 20, 50, 100, 300, 1000])
+        st = rng.choice('nnnwp')
+        if x < 0.2:
+            rounds.append('b%s0' % st)
+        elif x < 0.45:
+            rounds.append('d%s%d' % (st, us))
+        elif x < 0.65:
+            rounds.append('r%s%d' % (st, us))
+        elif x < 0.7:
+            rounds.append('n')
+        elif x < 0.78:
+            rounds.append('2%d' % us)
+        elif x < 0.93:
+            rounds.append(rng.choice(['hf', 'hf', 'ho', 'Hf', 'x', 'x']))
+        else:
+            rounds.append('c')
+    ops = []
+    if rng.random() < 0.3:
+        ops.append('interrupt')
+    k = 0
+    while k < len(rounds):             # several mt operations per case: the threads are created and joined per operation
+        n = rng.randrange(3, 12)
+        ops.append('mt ' + ' '.join(rounds[k:k + n]))
+        k += n
+    return ops
 
 
 def cases_exhaustive():
@@ -512,32 +581,53 @@ class C14(Check):
                   'epoll results and send/recv/accept/SO_ERROR outcomes the log of the model is accepted by four monitors that are the reading of '
                   'the property text (ServerLoopSpec: timers / life times, registrations and event kinds / failed read-write answered by onClosed / '
                   'interrupt and run), and what acceptance means is proved on the raw log: the (n+1)-th activation of a timer is the one due at '
-                  'creation + (n+1)*interval, is not early, and no live timer is due earlier; the loop never waits past a due time (time-out taken '
-                  'after everything that can create timers); no callback after remove() (also from inside callbacks, with a buffered event, and for '
-                  'the client removed by the very onAccepted/onConnected that announces it; Poll::set/remove prune); dispatched kinds are registered kinds; a failed read/write is followed by onClosed '
-                  'before the next wait/dispatch; run() returns only after interrupt(), and once interrupted the next wait is the last. '
+                  'creation + (n+1)*interval, is not early, and no live timer is due earlier; the loop never waits past the due time of a live timer '
+                  '(time-out taken after everything that can create timers, so no catch-up bursts of its own making); no callback after remove() '
+                  '(also from inside callbacks, with a buffered event, and for the client removed by the very onAccepted/onConnected that announces it; '
+                  'Poll::set/remove prune); dispatched kinds are registered kinds (onRead, the send of a backlog, onWrite, accept, connect); a failed '
+                  'read/write (a zero-length write with an empty backlog counts as failed, as in the code) is followed by onClosed before the next '
+                  'wait/dispatch; run() returns only after interrupt(), and once interrupted the next wait is the last. '
                   'The model is tied to the code by running the extracted model and the real Server (ASan/UBSan build of the working tree, '
-                  'kernel simulated by symbol interposition, private state read for the state line) on the same histories, line by line; '
-                  'the extracted monitors and an independent bounded-liveness oracle judge the implementation\'s own log.')
-    level_note = ('partial: eventual dispatch (liveness) only up to the kernel - a reported registered socket enters the buffer and the buffer is served '
-                  'head first, one event per iteration (eventual_dispatch_partial_*); termination of the timer/closing phases (intervals > 0, finite '
-                  'scripts) is not proved, the model ends such runs as stuck; "interrupt makes run() return" is the safety half (next wait is the last). '
+                  'kernel simulated by symbol interposition, private state of Server and Socket::Poll - pools, timer queue, closing set, selected events - '
+                  'read for the state lines) on the same histories, line by line; the extracted monitors and an independent bounded-liveness oracle '
+                  'judge the implementation\'s own log. Cross-thread interrupt(), host-name lookups and clear() run on the real kernel with real threads.')
+    level_note = ('partial: eventual dispatch (liveness) only up to the kernel - a reported registered socket enters the buffer; in every iteration the '
+                  'buffer only loses entries (order kept) and its head is served without asking the kernel (eventual_dispatch_partial_*); termination of '
+                  'the timer/closing phases (intervals > 0, finite scripts) is not proved, the model ends such runs as stuck; "interrupt makes run() '
+                  'return" is the safety half (next wait is the last). '
                   'Validated by correspondence only: insertion order among EQUAL due times; the 64-event limit of epoll_wait is outside the model '
-                  '(generators stay below it); DNS-resolver establishers, the Windows/poll() variants of Socket::Poll and real cross-thread timing of '
-                  'interrupt() (modelled as the flag being set at an arbitrary point: before run, from any callback, or while the loop waits) are not '
-                  'modelled. Lateness caused by the duration of callbacks themselves (the time-out is relative to the clock sampled at the start of the '
-                  'iteration) is outside the timer clause. Trusted: Coq kernel, ServerLoopSpec (the monitors), extraction + OCaml driver, the harness and its simulated kernel.')
-    technique = 'Coq proof (invariants + monitor coupling by induction over fuel and histories) + extracted-model/monitor vs implementation correspondence on a simulated kernel'
+                  '(generators stay below it). Not modelled in Coq, exercised by the real-kernel rounds of the harness only (stream mt: a loop thread and '
+                  'one or two interrupting threads on the real eventfd, stalls injected around the write to the event descriptor, getaddrinfo '
+                  'interposed; oracle = every round ends with run() returning within 3 s after interrupt() returned and never before it was called, '
+                  'exactly one onAbolished for a failed lookup, none after remove(), clear() leaves nothing behind): cross-thread timing of interrupt(), '
+                  'DNS-resolver establishers, Server::clear(). In the model interrupt() is the flag being set at an arbitrary point (before run, from '
+                  'any callback, or while the loop waits). The Windows/poll() variants of Socket::Poll are not covered. Dropping the mutex around the '
+                  'interrupted flag is not detectable here (no observable difference on this platform; mutants/C14/15). '
+                  'Lateness caused by the duration of callbacks themselves (the time-out is relative to the clock sampled at the start of the '
+                  'iteration) is outside the timer clause. Not judged: a suspended client without backlog (interest 0) whose peer hangs up is still '
+                  'reported by epoll (HUP/ERR cannot be masked); Poll::poll buffers it with flags 0, the loop treats it as a wake-up and spins until the '
+                  'client is resumed or removed - no clause of the property speaks about it. '
+                  'Never executed by the check: the failure returns of listen/connect/pair (socket system calls failing), the onAbolished after a '
+                  'failed socket option on a connected establisher, a false return of Poll::poll, and the else-branch deleteClient of the closing pass '
+                  '(dead code: pooled_clients_have_callback_objects). The five option setters are called (stream pending/random: opts; mt: nodelay/keepalive) '
+                  'but the options themselves are not observed. '
+                  'Trusted: Coq kernel, ServerLoopSpec (the monitors), extraction + OCaml driver, the harness and its simulated kernel.')
+    technique = 'Coq proof (invariants + monitor coupling by induction over fuel and histories) + extracted-model/monitor vs implementation correspondence on a simulated kernel + real-thread rounds on the real kernel'
     rule = ('cases = histories of top-level operations (create/remove timers, clients, listeners, establishers; write/read/suspend/resume/interrupt/clock), '
             'queued callback behaviours (remove others / self, create, write, read, suspend, interrupt) and run() calls with scripted epoll items; streams: '
-            'timers (up to 7 timers, equal due times, removal/creation from onActivated), pending (3..12 sockets ready in one round, victims removed or '
-            're-registered while their event is buffered), io (failed reads/writes, backlog, hang-ups, removal before the closing pass), interrupt '
-            '(before/during run, double), random, scope (exhaustive in the thorough tier: every sequence of <= 2 actions of a 12-action alphabet inside '
-            'an onRead callback x both epoll orders); non-trivial = the implementation made >= 2 callbacks inside a run(); distinct = distinct op text')
+            'timers (up to 9 timers, equal due times, removal/creation from onActivated), pending (3..12 sockets ready in one round, victims removed or '
+            're-registered while their event is buffered), io (failed reads/writes incl. zero-length writes, backlog, hang-ups, removal before the closing '
+            'pass), interrupt (before/during run, double), announce (clients removed by the onAccepted/onConnected that announces them, with and without a '
+            'callback object handed back), late (timers created in onClosed and other callbacks), mt (real kernel + real threads: interrupt() before / during / '
+            'racing with run(), two interrupters, lookups completing together with an interrupt, removal with a pending lookup, clear()), random (also '
+            'the socket-option setters), scope '
+            '(exhaustive in the thorough tier: every sequence of <= 2 actions of a 12-action alphabet inside an onRead callback x both epoll orders); '
+            'non-trivial = the implementation made >= 2 callbacks inside a run() (mt: >= 3 rounds completed); distinct = distinct op text')
     assumptions = ['level-triggered epoll: a ready registered descriptor and a readable event descriptor are reported by every epoll_wait (fairness of the simulated kernel)',
                    'at most 63 ready sockets per epoll_wait (the 64-entry event array is not modelled)',
                    'timer intervals > 0 and finite callback scripts for termination of a loop iteration (not needed for the safety theorems)',
-                   'identities of removed objects are never reused by the test (pool slots may be)']
+                   'the application does not touch an object after its remove() returned; identities of removed objects are never reused by the test (pool slots may be)',
+                   'mt rounds: a run() that has not returned 3 s after interrupt() returned counts as hung (machine load can in principle produce a false alarm)']
 
     def __init__(self):
         Check.__init__(self)
@@ -545,6 +635,8 @@ class C14(Check):
         self.harness_flags = ['-DSLK_HDR_HASH=0x' + h, '-I' + os.path.join(VERIF, 'harness')]
 
     def nontrivial(self, case, obs):
+        if any(l.startswith('mt ') for l in case):
+            return sum(1 for l in obs if l.startswith('mt ') and l.endswith(' ok')) >= 3
         cbs = sum(1 for l in obs if l.startswith(('cb ', 'act ', 'intro ')))
         return cbs >= 2 and any(l.startswith('run') for l in case)
 
@@ -558,6 +650,7 @@ class C14(Check):
         out.append(Stream('interrupt', [case_interrupt(rng, th) for _ in range(100 * m)], note='interrupt before/during run'))
         out.append(Stream('announce', [case_announce(rng, th) for _ in range(120 * m)], note='clients removed by the onAccepted/onConnected that announces them'))
         out.append(Stream('late', [case_late(rng, th) for _ in range(100 * m)], note='timers created in onClosed / other callbacks; the loop must not sleep past a due time'))
+        out.append(Stream('mt', [case_mt(rng, th) for _ in range(40 * m)], note='real kernel, real threads: interrupt() racing with run(), lookups completing together with an interrupt, clear()'))
         out.append(Stream('random', [case_random(rng, th) for _ in range(200 * m)]))
         if th:
             out.append(Stream('scope', cases_exhaustive(), exhaustive=True,
@@ -590,6 +683,12 @@ class C14(Check):
         fails = []
         ver = self.monitor(impl_obs)
         for i, (c, o) in enumerate(zip(cases, impl_obs)):
+            mt = [l for l in o if l.startswith('mt ') and ' FAIL ' in l]
+            if mt:
+                t = mt[0].split()
+                head = ('[real-thread round `%s…` fails: %s]' % (t[2][0], ' '.join(t[4:])[:44])).ljust(82, '.')
+                fails.append((i, 0, head + ' ' + mt[0]))
+                continue
             bad = [l for l in o if l.startswith('!')]
             if bad:
                 fails.append((i, 0, 'implementation: ' + bad[0]))
